@@ -80,6 +80,9 @@ def nontrivial(h, v):
 
 
 def record(rep, h, v):
+    if v.get('unavailable'):
+        rep.add_counts(rep.probes, {'hist_driver_unavailable(signature changed; pipeline part still runs)': 1})
+        return
     rep.add_counts(rep.probes, {'hist_batches': v.get('batches', 0), 'hist_value_crossing_threshold_in_nonfinal_batch': 1 if v.get('crossing_batches') else 0,
                                 'hist_small_counter_bound': 1 if h['bound'] < 100 else 0, 'hist_nothing_rare': 1 if v.get('final') and not v['final'].get('rare') else 0,
                                 'hist_crash_after_complete_report(outside statement)': 1 if (v.get('final') or {}).get('crash_after_report') else 0})
@@ -87,7 +90,7 @@ def record(rep, h, v):
 
 def after_round(pool, rep, rng, hists, results):
     """All compositions of one row sequence give identical cardinalities, histograms and rare-value sets."""
-    base = [(h, r) for h, r in zip(hists, results) if r.get('status') == 'returned' and not r['value'].get('problems') and len(h['rows']) >= 2][:24]
+    base = [(h, r) for h, r in zip(hists, results) if r.get('status') == 'returned' and not r['value'].get('problems') and not r['value'].get('unavailable') and len(h['rows']) >= 2][:24]
     variants, owner = [], []
     for bi, (h, r) in enumerate(base):
         for _ in range(3):
@@ -103,7 +106,7 @@ def after_round(pool, rep, rng, hists, results):
         h0, r0 = base[bi]
         if rv.get('status') != 'returned':
             raise common.HarnessError(f'variant history did not return: {rv}')
-        if rv['value'].get('problems'):
+        if rv['value'].get('problems') or rv['value'].get('unavailable'):
             continue       # reported through the per-history oracle in a later round
         f0, f1 = r0['value']['final'], rv['value']['final']
         rep.add_counts(rep.probes, {'split_pairs_compared': 1})
